@@ -632,14 +632,11 @@ def deliverSrc (s : Src) (dest : Dest) (cg : CG) : M Unit :=
   | .push => emitTo cg (.push s)
   | .to d => if sameObject s d then pure () else emitTo cg (.move s d)
 
-/-- the part of `_rvalue` after the `{` / `[` tests that does not recurse; `none` = the token is
-`not` (handled by the caller) -/
-def rvalueSimple (dest : Dest) (cg : CG) : M Bool := do
-  let uminus := (← getSt).cur.isMark "-"
-  if uminus then skipToken
-  let value ← currentConstant
+/-- `_rvalue` once the constant value of the current token (if any) is known -/
+def rvalueValue (uminus : Bool) (dest : Dest) (cg : CG) (value : Option CVal) : M Bool := do
   if uminus && (match value with | some c => (negC c).isNone | none => true) then
     triggerError "Outside expressions, a minus is allowed only for numbers."
+  else
   match value with
   | some c =>
     let c := if uminus then (negC c).getD c else c
@@ -665,13 +662,21 @@ def rvalueSimple (dest : Dest) (cg : CG) : M Bool := do
         return true
       | none =>
         -- `_current_reg()` gave `None` (no REGISTER token of the lexer does)
-        match dest with
-        | .push => emitTo cg (.bad "PUSH||")
-        | .to _ => emitTo cg (.bad "MOVE-None")
+        emitTo cg (match dest with
+          | .push => .bad "PUSH||"
+          | .to _ => .bad "MOVE-None")
         nextToken
         return true
     | .not_ => return false
     | _ => tokenError "Cannot use " " as a value."
+
+/-- the part of `_rvalue` after the `{` / `[` tests that does not recurse; `false` = the token is
+`not` (handled by the caller) -/
+def rvalueSimple (dest : Dest) (cg : CG) : M Bool := do
+  let uminus := (← getSt).cur.isMark "-"
+  (if uminus then skipToken else pure ())
+  let value ← currentConstant
+  rvalueValue uminus dest cg value
 
 mutual
   /-- `_rvalue(dest, code_gen)` -/
@@ -1302,6 +1307,76 @@ def loopPost (info : LoopInfo) : M Unit := do
 
 /-! ## Statements that contain statements -/
 
+/-- `LoopParser.repeat` between `enter_loop()` and `fix_break_addrs()`, around the parse of the
+loop body (`command_seq`) -/
+def repeatBody (commandSeq : M Unit) : M Unit := do
+  emit .loop
+  let lt ← detectLoopType
+  let info ← preLoop lt
+  let top ← offset
+  loopTest info.ty
+  let exit ← ifTrueStart
+  -- `_loop_body`
+  (if info.ty.isIter then
+    emit (match info.lightVar with
+      | some v => .pop (.var v)
+      | none => .bad "POP||")
+   else pure ())
+  commandSeq
+  loopPost info
+  jumpBack top
+  ifEnd exit
+
+/-- the end of `LoopParser.repeat` -/
+def closeLoop : M Unit := do
+  fixBreakAddrs
+  emit .endLoop
+  exitLoop
+
+/-- `_routine_definition` between `enter_routine()` and the body -/
+def routineHead (name : String) (withParams : Bool) : M Unit := do
+  emit (.routine name)
+  addRoutine name []
+  (if withParams then do
+    skipToken
+    paramDecl name
+   else pure ())
+
+/-- `END name; exit_routine()` -/
+def finishRoutine (name : String) (st : St) : St :=
+  let st := { st with code := st.code.push (.end_ name) }
+  { st with inRoutine := false, locals := [], loops := resumeLoops st.loops }
+
+/-- `_block_operand` after the nesting test -/
+def blockOperand (commandSeq : M Unit) : M Unit := do
+  enterMatrix
+  commandSeq
+  exitMatrix
+
+/-- `result = m(); <fin>; return result`: `fin` runs whether `m` returned `True` or `False` -/
+def andFinally (m : M Unit) (fin : St → St) : M Unit := fun st =>
+  match m st with
+  | .ok _ st' => .ok () (fin st')
+  | .fail st' => .fail (fin st')
+  | r => r
+
+/-- `_routine_definition` after the nesting test; `body` parses the routine body -/
+def routinePart (name : String) (withParams : Bool) (body : M Unit) : M Unit := do
+  enterRoutine
+  routineHead name withParams
+  -- the body's result is returned after `END` and `exit_routine()`
+  andFinally body (finishRoutine name)
+
+/-- `_definition` after the name -/
+def definitionRest (name : String) (body : M Unit) : M Unit := do
+  let st ← getSt
+  if st.detectRoutineStart then
+    if st.hasRoutine name then tokenError "Already defined: \"" "\""
+    -- `_routine_definition`
+    else if st.inRoutine then triggerError "Nested definition not allowed."
+    else routinePart name (st.cur.ty == .with_) body
+  else macroDefinition name
+
 mutual
   /-- `_command`: dispatch on the type of the current token -/
   def command : Nat → M Unit
@@ -1382,24 +1457,8 @@ mutual
     | f + 1 => do
       skipToken
       enterLoop
-      emit .loop
-      let lt ← detectLoopType
-      let info ← preLoop lt
-      let top ← offset
-      loopTest info.ty
-      let exit ← ifTrueStart
-      -- `_loop_body`
-      if info.ty.isIter then
-        emit (match info.lightVar with
-          | some v => .pop (.var v)
-          | none => .bad "POP||")
-      commandSeq f
-      loopPost info
-      jumpBack top
-      ifEnd exit
-      fixBreakAddrs
-      emit .endLoop
-      exitLoop
+      repeatBody (commandSeq f)
+      closeLoop
 
   /-- `_definition` -/
   def definition : Nat → M Unit
@@ -1408,29 +1467,9 @@ mutual
       skipToken
       let st ← getSt
       if st.cur.ty != .name then tokenError "Expected name for definition, got: " ""
-      let name := st.cur.str
-      skipToken
-      let st ← getSt
-      if st.detectRoutineStart then
-        if st.hasRoutine name then tokenError "Already defined: \"" "\""
-        -- `_routine_definition`
-        if st.inRoutine then triggerError "Nested definition not allowed."
-        enterRoutine
-        emit (.routine name)
-        addRoutine name []
-        if st.cur.ty == .with_ then
-          skipToken
-          paramDecl name
-        -- the body's result is returned after `END` and `exit_routine()`
-        fun st =>
-          let finish (st : St) : St :=
-            let st := { st with code := st.code.push (.end_ name) }
-            { st with inRoutine := false, locals := [], loops := resumeLoops st.loops }
-          match commandSeq f st with
-          | .ok _ st' => .ok () (finish st')
-          | .fail st' => .fail (finish st')
-          | r => r
-      else macroDefinition name
+      else
+        skipToken
+        definitionRest st.cur.str (commandSeq f)
 
   /-- `_action(op_code)` -/
   def action : Nat → OpC → M Unit
@@ -1500,13 +1539,12 @@ mutual
       if st.cur.ty == .begin_ then
         -- `_block_operand`
         if st.inMatrix then triggerError "Nesting not allowed here."
-        enterMatrix
-        commandSeq f
-        exitMatrix
+        else blockOperand (commandSeq f)
       else inlineOperand
 end
 
 /-! ## The whole parse -/
+
 
 /-- `_body`: the loop -/
 def body : Nat → Nat → M Unit
